@@ -308,6 +308,13 @@ def run(ctx, prog):
     rr = rs.reach([0], avoid_edges=rso)
     ctx.inst('C03.R4', rs.short, 'counters restored only after the truncate succeeded',
              bool(w1) and bool(w2) and all(b not in rr for b in w1 + w2), 'bytes_written/entry_count assignments: %s %s' % (w1, w2))
+    # a successful return means the file really was truncated: no path to a non-Err return avoids the truncate's success edge
+    errs_rs = flow.err_blocks(rs)
+    ok_wo = [x for x in rs.reach([0], avoid_edges=rso, avoid_blocks=errs_rs) | {0} if x in rs.return_blocks() and x not in errs_rs]
+    thr = flow.ThreadedView(rs)
+    ok_wo = [x for x in ok_wo if x in thr.reach([0], avoid_edges=rso, avoid_blocks=errs_rs)]
+    ctx.inst('C03.R4', rs.short, 'returns Ok only after rollback_to_offset succeeded (no early exit that keeps torn bytes)', bool(rso) and not ok_wo,
+             'Ok return reachable without the truncate: %s' % (rt.path_witness(rs, rt.find_path(rs, [0], ok_wo, avoid_blocks=errs_rs, avoid_edges=rso)) if ok_wo else 'no'))
     for name, inner in (('WalWriter::append', 'append_internal_with_rollback'), ('WalWriter::append_batch', 'append_batch_internal_with_rollback')):
         f = ctx.body('C03.R4', name)
         wr = f.calls_to('WalErrorHandler::write_with_retry')
